@@ -36,6 +36,10 @@ def _child(fn, item, limit, conn, mem_gb):
             res = dict(crash='%s: %s' % (type(e).__name__, str(e)[:300]), tb=traceback.format_exc()[-2000:])
         finally:
             signal.alarm(0)
+        # the alarm may fire inside a solver call-back, where ctypes wraps it into an ordinary exception that the task's own
+        # handler then reports as a crash: it is the time limit all the same (undecided, never a checker error)
+        if isinstance(res, dict) and 'crash' in res and 'TaskTimeout' in (str(res.get('crash')) + str(res.get('tb', ''))):
+            res = dict(res, timeout=True)
         conn.send(res)
     except BaseException as e:     # noqa: B902
         try:
